@@ -88,16 +88,22 @@ class Sink:
 
 
 class FailingSequence:
-  """Random-access sequence whose item access raises at the failing positions."""
+  """Random-access sequence whose item access raises at the failing positions.
 
-  def __init__(self, elements, injector):
-    self.elements, self.injector = elements, injector
+  slices=False: an index-only source (`__getitem__(int)` only; a slice read
+  raises TypeError), the documented fall-back mode of the range reader.
+  """
+
+  def __init__(self, elements, injector, slices=True):
+    self.elements, self.injector, self.slices = elements, injector, slices
 
   def __len__(self):
     return len(self.elements)
 
   def __getitem__(self, i):
     if isinstance(i, slice):
+      if not self.slices:
+        raise TypeError('this source reads one element at a time')
       return [self[j] for j in range(*i.indices(len(self)))]
     if i < 0 or i >= len(self):
       raise IndexError(i)
@@ -155,8 +161,20 @@ def build(prog, injector, sinks):
   t = transform.TreeTransform.new(num_threads=prog['nt'])
   if prog['loc'] == 'source':
     from ml_metrics._src.chainables import io
-    seq = FailingSequence(make_elements(prog['n'], prog['w']), injector)
-    t = t.data_source(io.SequenceDataSource(seq, ignore_error=prog['srcflag']))
+    src = prog.get('src') or {}
+    elements, slices = make_elements(prog['n'], prog['w']), src.get('slices', True)
+    if src.get('members') is None:
+      ds = io.SequenceDataSource(FailingSequence(elements, injector, slices),
+                                 ignore_error=prog['srcflag'])
+    else:
+      cuts = [0] + list(itt.accumulate(src['members']))
+      assert cuts[-1] == prog['n']
+      ds = io.SequenceDataSource.from_sequences(
+          [FailingSequence(elements[a:b], injector, slices)
+           for a, b in zip(cuts, cuts[1:])], ignore_error=prog['srcflag'])
+    if src.get('shard'):
+      ds = ds.shard(*src['shard'])
+    t = t.data_source(ds)
   for i, op in enumerate(prog['ops']):
     active = i == prog['fail_at']
     rb = dict(batch_size=op['bs'], fn_batch_size=op['fbs'])
@@ -228,6 +246,11 @@ def expectation(prog, failing):
   n, ops = prog['n'], prog['ops']
   elements = make_elements(n, prog['w'])
   if prog['loc'] == 'source':
+    lo, hi = 0, n
+    if (prog.get('src') or {}).get('shard'):
+      lo, hi = skip_ref.shard_range(n, *prog['src']['shard'])
+    elements = elements[lo:hi]   # (a row value still names its stream element)
+    failing = [f - lo for f in failing if lo <= f < hi]
     if not failing:
       return ('clean',) + skip_ref.run(elements, ops, None, ())[:2]
     kept = [e for i, e in enumerate(elements) if i not in failing]
@@ -313,13 +336,24 @@ def sig_of(prog, what):
   mode = 'skip' if (prog['ignore'] or prog['srcflag']) else 'raise'
   rb = next(('bs=%d,fbs=%d' % (op['bs'], op['fbs']) for op in prog['ops']
              if op['bs'] or op['fbs']), '')
+  if not (prog.get('src') or {}).get('slices', True):
+    rb = 'index-only-source'
   return f'C12:{mode}:{prog["loc"]}:{what}' + (f':{rb}' if rb else '')
 
 
 def key_of(prog, failing):
   return (tuple((o['kind'], o['bs'], o['fbs']) for o in prog['ops']),
           prog['loc'], prog['fail_at'], prog['exc'], prog['ignore'],
-          prog['srcflag'], prog['w'], prog['nt'], prog['n'], tuple(failing))
+          prog['srcflag'], prog['w'], prog['nt'], prog['n'], tuple(failing),
+          _src_key(prog.get('src')))
+
+
+def _src_key(src):
+  if not src:
+    return None
+  return (src.get('slices', True),
+          None if src.get('members') is None else tuple(src['members']),
+          None if not src.get('shard') else tuple(src['shard']))
 
 
 def run_case(st, prog, failing):
@@ -375,19 +409,49 @@ def failure_sets(max_n, max_failures):
       yield n, f
 
 
+def compositions(n, parts):
+  """Every way to write n as an ordered sum of `parts` lengths >= 0."""
+  if parts == 1:
+    return [(n,)]
+  return [(a,) + rest for a in range(n + 1)
+          for rest in compositions(n - a, parts - 1)]
+
+
+def source_structures(n, max_members):
+  """How the n elements are stored and which part of them is read: sliceable
+  or index-only sequences x one plain sequence or `from_sequences` over members
+  of every length (0 and 1 included) x the whole source or shard i of k for
+  every k <= n + 1 (so that one-element and empty shards occur)."""
+  layouts = [None] + [c for m in range(2, max_members + 1)
+                      for c in compositions(n, m)]
+  for slices, members in itt.product((True, False), layouts):
+    for k in range(1, n + 2):
+      for i in range(k):
+        if slices and members is None and k == 1:
+          continue  # the plain source of the main enumeration
+        yield dict(slices=slices, members=members,
+                   shard=None if k == 1 else (i, k))
+
+
 def _unit(args):
-  progs, cases = args
+  progs, cases, max_members = args
   st = Stats()
   for prog in progs:
     for n, failing in cases:
-      run_case(st, dict(prog, n=n), failing)
+      if not max_members:
+        run_case(st, dict(prog, n=n), failing)
+        continue
+      for src in source_structures(n, max_members):
+        run_case(st, dict(prog, n=n, src=src), failing)
   if progs:
-    st.sample({'program': progs[0], 'n': cases[-1][0], 'failing': cases[-1][1]})
+    st.sample({'program': progs[0], 'n': cases[-1][0], 'failing': cases[-1][1],
+               **({'last source structure': src} if max_members else {})})
   return st
 
 
 def run(ctx):
   max_ops, max_n, max_f = (2, 5, 2) if ctx.quick else (3, 6, None)
+  src_ops, src_members, src_n = (0, 2, 5) if ctx.quick else (1, 3, 5)
   progs = ctx.shuffled(programs(max_ops))
   cases = list(failure_sets(max_n, max_f))
   ctx.rule = (
@@ -401,7 +465,14 @@ def run(ctx):
       'scalar elements, or batches of 1 or 2 rows with (batch_size, '
       'fn_batch_size) in {(0,0),(2,0),(2,2)}; for a failing assign: scalars, '
       'or batches of 2 rows with the same options; num_threads = 0; plus '
-      'checkpoint/resume at every cut for a skipping source; non-trivial = a '
+      'checkpoint/resume at every cut for a skipping source; plus the '
+      f'source-structure family for a failing source and <= {src_ops} '
+      f'operators after the first apply: the n <= {src_n} elements stored '
+      'in sliceable or index-only (slice read raises TypeError) sequences x one sequence or '
+      f'from_sequences over 2..{src_members} members of every length >= 0 '
+      'summing to n x the whole source or shard i of k for every i < k <= '
+      'n + 1 (one-element and empty shards occur) x the same F, exception, '
+      'ignore_error flags and resume cuts; non-trivial = a '
       'failure is actually reached; distinct = distinct (driver, program, n, F)')
   ctx.assumptions += [
       'any exception raised by an operator function is skippable '
@@ -416,11 +487,31 @@ def run(ctx):
       'sink closure is observed after the caller has released the exception '
       'object (its traceback keeps suspended upstream generators alive) while '
       'still holding the iterator',
-      'threads: num_threads = 0 only',
+      'threads: num_threads = 0 only; the shards num_threads would make are '
+      'read one by one through SequenceDataSource.shard(i, k)',
+      'a shard delivers the contiguous range of the documented split (first '
+      'n mod k shards one element more)',
+      'a slice read that raises is not an element failure: it must never '
+      'surface nor cost an element (documented fall-back to single reads)',
   ]
   ctx.notes['programs'] = len(progs)
   ctx.notes['failure_sets'] = len(cases)
-  ctx.pmap(_unit, [(u, cases) for u in enums.chunks(progs, 64)])
+  units = [(u, cases, 0) for u in enums.chunks(progs, 64)]
+  # the source-structure family: pipelines of <= src_ops extra operators
+  src_progs = [p for p in ctx.shuffled(programs(src_ops))
+               if p['loc'] == 'source']
+  by_n = {}
+  for n, f in cases:
+    if n <= src_n:
+      by_n.setdefault(n, []).append((n, f))
+  for p in src_progs:
+    for n, cs in sorted(by_n.items()):
+      for c in (enums.chunks(cs, 4) if n >= 4 else [cs]):
+        units.append(([p], list(c), src_members))
+  ctx.notes['source_structure_programs'] = len(src_progs)
+  ctx.notes['source_structures_per_n'] = {
+      n: sum(1 for _ in source_structures(n, src_members)) for n in by_n}
+  ctx.pmap(_unit, ctx.shuffled(units))
 
 
 def replay(ctx, data):
